@@ -82,6 +82,10 @@ def _case(draw, tier):
         # threshold), or a second merge consumed alternately with the observed one
         "history": draw(st.sampled_from(["none", "abandoned", "abandoned", "interleaved"])),
         "history_steps": draw(st.integers(1, 6)),
+        # one input listed twice (the same path given two times): its rows are merged two times, like any other input's
+        "dup": draw(st.sampled_from([None, None, None, 0, 1, 2])),
+        # text inputs print whole values of the payload number column without a decimal point (7 rather than 7.0)
+        "compact": draw(st.booleans()),
     }
 
 
@@ -128,7 +132,7 @@ def check(case):
                 c_id: [f"i{fi}_{j}" for j in range(len(scores))],
                 c_score: np.array(scores, dtype=np.int64 if bigint else float),
                 c_pay: [f"p{fi}x{j}" for j in range(len(scores))],
-                c_num: [float(fi) + j / 64.0 for j in range(len(scores))],
+                c_num: [float(fi) + max(0, j - 1) / 64.0 for j in range(len(scores))],  # the first two are whole numbers
             })
             if nulls:
                 # optional columns with gaps: an integer column (charge) and a text column (modification)
@@ -145,9 +149,19 @@ def check(case):
                 pq.write_table(pa.Table.from_pandas(df, preserve_index=False).replace_schema_metadata(None), p)
             elif ext == ".parquet":
                 df.to_parquet(p, index=False)
+            elif case.get("compact"):
+                dft = df.astype(object)
+                dft[c_num] = [str(int(v)) if float(v).is_integer() else repr(float(v)) for v in df[c_num]]
+                dft.to_csv(p, sep="\t", index=False)
             else:
                 df.to_csv(p, sep="\t", index=False)
             paths.append(p)
+        dup_ids = []
+        if case.get("dup") is not None:
+            j_ = case["dup"] % len(paths)
+            paths.append(paths[j_])
+            dup_ids = [f"i{j_}_{r_}" for r_ in range(len(inputs[j_]))]
+            inputs = inputs + [inputs[j_]]
         impl = case["impl"]
         req_cols = [c_score, c_id] if (case["subset"] and impl in ("read", "chunked", "rows-dicts")) else None
 
@@ -167,7 +181,7 @@ def check(case):
                             out_a.append(dict(ra))
                             out_b.append(dict(rb))
                         sb = [float(r[c_score]) for r in out_b]
-                        require(sorted(r[c_id] for r in out_b) == sorted(all_rows) and all(x >= y for x, y in zip(sb, sb[1:])),
+                        require(sorted(r[c_id] for r in out_b) == sorted(list(all_rows) + dup_ids) and all(x >= y for x, y in zip(sb, sb[1:])),
                                 "interleaved-merge", f"second of two alternately consumed merges: {len(out_b)} rows, scores {sb[:20]}")
                         return out_a
                     return [dict(r) for r in mutils.merge_sort(paths, score_column=c_score)]
@@ -227,7 +241,7 @@ def check(case):
     for r in out:
         require(c_id in r, "columns", f"{impl}: row keys {list(r.keys())} for header {cols}")
     ids = [r[c_id] for r in out]
-    require(len(ids) == n and sorted(ids) == sorted(all_rows), "rows-lost-or-duplicated",
+    require(len(ids) == n and sorted(ids) == sorted(list(all_rows) + dup_ids), "rows-lost-or-duplicated",
             f"{impl}: {len(ids)} rows out for {n} in; missing {sorted(set(all_rows) - set(ids))[:3]}, "
             f"duplicated {sorted({i for i in ids if ids.count(i) > 1})[:3]}")
     want = cols if req_cols is None else req_cols
@@ -266,6 +280,10 @@ def check(case):
         classes.append("columns-with-missing-values")
     if bigint:
         classes.append("integer-scores-beyond-2**53")
+    if dup_ids:
+        classes.append("input-listed-twice")
+    if case.get("compact") and case["fmt"] == "tsv":
+        classes.append("text-whole-numbers-without-decimal-point")
     if case.get("overlap") and impl == "chunked":
         classes.append("overlapping-passes")
     if impl == "merge_sort" and case.get("history", "none") != "none":
